@@ -538,6 +538,12 @@ func (conn *obfs4Conn) Write(b []byte) (int, error) {
 				// window and will sample the length distribution every time a
 				// write is scheduled.
 				targetLen := conn.lenDist.Sample()
+				if targetLen == 0 {
+					// The length distribution can contain 0, which denotes a
+					// burst ending on a segment boundary.  A 0 byte write is
+					// meaningless, so send a full segment instead.
+					targetLen = framing.MaximumSegmentLength
+				}
 				if frameBuf.Len() < targetLen {
 					// There's not enough data buffered for the target write,
 					// so padding must be inserted.
